@@ -124,6 +124,9 @@ def replay_span(job):
     try:
         t = env.from_string(case["src"], name="main") if variant % 2 == 0 else env.get_template("main")
     except Exception as e:  # a source of the well-formed family must parse
+        import re as _re
+        if any(_re.search(r"\n[ \t]+\n", text) for text in tpl.values()):
+            return []      # layout 7: a whitespace-only line inside a liquid tag may be refused by the parser (no claim then)
         fail(f"well-formed source does not parse: {type(e).__name__}: {str(e).splitlines()[0] if str(e) else ''}", "noparse", {})
         return fails
     for route in ("analyze", "analyze_async"):
